@@ -133,6 +133,7 @@ theorem tyS_wf (lp : Bool) (ret : Option Ty) (g : TEnv) (e : Expr) (T : Ty) (h :
       · split at h5
         · exact okw h5
         · cases h5; rfl
+        · exact okw h5
         · cases h5
   | fn ps rt body =>
     simp only [tyS] at h
